@@ -3,7 +3,7 @@
 
 Each change is applied to a scratch copy of /repo (never to /repo itself), the quick check of the property it breaks
 (meta.json "property", plus any in "also") is run with ZIX_REPO pointing at the copy, and the verdict is tabulated.
-usage: tools/run_seeded.py [name ...] [--tier quick|thorough] [--keep-replays]"""
+usage: tools/run_seeded.py [name ...] [--tier quick|thorough] [--keep-replays] [--jobs=N]"""
 import json
 import os
 import shutil
@@ -19,8 +19,10 @@ def main():
     tier = "thorough" if "--tier=thorough" in sys.argv or "thorough" in sys.argv[1:] and "--tier" in sys.argv else "quick"
     names = args or sorted(d for d in os.listdir(os.path.join(V, "seeded")) if os.path.isdir(os.path.join(V, "seeded", d)))
     names = [n for n in names if n != "thorough"]
-    rows = []
-    for n in names:
+    jobs = max([int(a.split("=")[1]) for a in sys.argv if a.startswith("--jobs=")] or [1])
+
+    def one(n):
+        rows = []
         d = os.path.join(V, "seeded", n)
         meta = json.load(open(os.path.join(d, "meta.json")))
         tmp = tempfile.mkdtemp(prefix="zixseed.")
@@ -30,7 +32,7 @@ def main():
             r = subprocess.run(["git", "apply", os.path.join(d, "patch.diff")], cwd=tmp, capture_output=True, text=True)
             if r.returncode != 0:
                 rows.append((n, meta["property"], "PATCH-DOES-NOT-APPLY", r.stderr.strip()[:80]))
-                continue
+                return rows
             for pid in [meta["property"]] + meta.get("also", []):
                 env = dict(os.environ, ZIX_REPO=tmp, VERIF_NO_EVIDENCE="1", VERIF_TIER=tier)
                 p = subprocess.run([sys.executable, "tools/check.py", pid, "--tier", tier], cwd=V, env=env,
@@ -55,6 +57,11 @@ def main():
                 rows.append((n, pid, verdict, detail))
         finally:
             shutil.rmtree(tmp, ignore_errors=True)
+        return rows
+
+    from concurrent.futures import ThreadPoolExecutor
+    with ThreadPoolExecutor(jobs) as ex:
+        rows = [r for part in ex.map(one, names) for r in part]
     w = max(len(r[0]) for r in rows) if rows else 4
     for r in rows:
         print("%-*s  %-4s  %-8s  %s" % (w, r[0], r[1], r[2], r[3]))
